@@ -37,7 +37,14 @@ def _data(seed):
     return {"e": e, "n": no, "d": np.round(rs.normal(size=n) * 16) / 16, "d2": np.round(rs.normal(size=n) * 16) / 16,
             "w": np.round(rs.uniform(0.5, 2, n) * 16) / 16, "up": np.arange(n) * 1.0,
             "var": np.array([0.0, 1.0, np.nan, 4.0, 1e-16, 2.0, 0.5, 3.0]), "lon": np.array([-170.0, 10.0, 350.0, 180.0]),
-            "lat": np.array([-10.0, 0.0, 45.0, 80.0]), "E2": None, "N2": None}
+            "lat": np.array([-10.0, 0.0, 45.0, 80.0]), "E2": None, "N2": None,
+            # non-data arguments given as arrays (regions, pads, spacings, points, sizes): they must not be written to either
+            "reg": np.array(REG), "reg2": np.array([2.0, 8.0, -2.0, 2.0]), "lonreg": np.array([350.0, 10.0, -30.0, 30.0]),
+            "lonreg2": np.array([-170.0, 190.0, -30.0, 30.0]), "pad": np.array([1.0, 2.0]), "spacing": np.array([2.5, 2.0]),
+            "sizes": np.array([2.0, 6.0]), "center": np.array([5.0, 0.0]), "p1": np.array([0.0, 1.0]), "p2": np.array([4.0, -2.0])}
+
+
+REG = (0.0, 10.0, -5.0, 5.0)
 
 
 def _canon(x):
@@ -59,9 +66,25 @@ def _canon(x):
     return ("arr", a.shape, a.dtype.str, a.tobytes())
 
 
-REG = (0.0, 10.0, -5.0, 5.0)
-
 CALLABLES = {
+    "inside-arrayregion": lambda a: vd.inside((a["e"], a["n"]), a["reg2"]),
+    "pad_region-arrays": lambda a: vd.pad_region(a["reg"], a["pad"]),
+    "scatter_points-arrayregion": lambda a: vd.scatter_points(a["reg"], 7, random_state=3),
+    "grid_coordinates-arrays": lambda a: vd.grid_coordinates(a["reg"], spacing=a["spacing"]),
+    "profile_coordinates-arrays": lambda a: vd.profile_coordinates(a["p1"], a["p2"], 6),
+    "block_split-arrays": lambda a: vd.block_split((a["e"], a["n"]), spacing=a["spacing"], region=a["reg"]),
+    "rolling_window-arrays": lambda a: vd.rolling_window((a["e"], a["n"]), size=4.0, spacing=a["spacing"], region=a["reg"]),
+    "expanding_window-arrays": lambda a: vd.expanding_window((a["e"], a["n"]), center=a["center"], sizes=a["sizes"]),
+    "longitude_continuity-arrayregion": lambda a: vd.longitude_continuity([a["lon"], a["lat"]], a["lonreg"]),
+    "longitude_continuity-arrayregion-only": lambda a: [vd.longitude_continuity(None, a["lonreg"]), vd.longitude_continuity(None, a["lonreg2"])],
+    "check_region+get_region-arrays": lambda a: [vd.coordinates.check_region(a["reg"]), vd.get_region((a["e"], a["n"]))],
+    "project_region-array": lambda a: vd.project_region(a["reg"], lambda e, n: (2.0 * e + 1.0, n * n)),
+    "BlockReduce.filter-arrays": lambda a: vd.BlockReduce(np.median, spacing=a["spacing"], region=a["reg"]).filter((a["e"], a["n"]), a["d"]),
+    "Trend.grid-arrayregion": lambda a: [vd.Trend(1).fit((a["e"], a["n"]), a["d"]).grid(region=a["reg"], spacing=a["spacing"]),
+                                         vd.Trend(1).fit((a["e"], a["n"]), a["d"]).scatter(region=a["reg"], size=5, random_state=0),
+                                         vd.Trend(1).fit((a["e"], a["n"]), a["d"]).profile(a["p1"], a["p2"], 5)],
+    "CheckerBoard-arrayregion": lambda a: vd.synthetic.CheckerBoard(region=a["reg"]).predict((a["e"], a["n"])),
+
     "get_region": lambda a: vd.get_region((a["e"], a["n"])),
     "inside": lambda a: vd.inside((a["e"], a["n"]), (2.0, 8.0, -2.0, 2.0)),
     "pad_region": lambda a: vd.pad_region(REG, (1.0, 2.0)),
